@@ -7,6 +7,7 @@ multi-line `if`), validated against tests/nix-files/pkgs/trl-default.nix (nixfmt
 from __future__ import annotations
 
 import random
+import zlib
 
 IDENTS = ["lib", "stdenv", "fetchurl", "pname", "version", "src", "meta", "owner", "repo", "a", "b", "foo-bar", "x'"]
 STRS = ['"trl"', '"0.19.0"', '"sha256-abc="', '"v${version}"', '"a b"', '""', '"é✓"']
@@ -88,6 +89,27 @@ class Gen:
             return (f"{pad}{self.name()} =\n{pad}  if stdenv.isLinux then\n{pad}    a\n{pad}  else\n{pad}    b;\n")
         raise ValueError(kind)
 
+    def formals_multi(self):
+        """multi-line formals ending in `...` (no trailing-comma ERROR node, so the file is really
+        parsed): end-of-line comments, own-line comments, single blank lines, defaults"""
+        r = self.rng
+        lines = []
+        names = r.sample(["lib", "stdenv", "fetchurl", "rich", "python3", "callPackage", "enableFoo"], r.randint(2, 5))
+        for i, nm in enumerate(names):
+            if i and r.random() < 0.3:
+                lines.append("")
+            if r.random() < 0.3:
+                lines.append("  # deps " + nm)
+            d = r.choice(["", "", "", " ? null", " ? true", " ? [ ]"])
+            e = r.choice(["", "", " # note " + nm])
+            lines.append(f"  {nm}{d},{e}")
+        if r.random() < 0.4:
+            lines.append("")
+        if r.random() < 0.2:
+            lines.append("  # rest")
+        lines.append("  ...")
+        return "{\n" + "\n".join(lines) + "\n}:\n" + r.choice(["", "\n"])
+
     def set_body(self, level, depth, kinds=None):
         n = self.rng.randint(0, self.max_items) if kinds is None else len(kinds)
         if n == 0:
@@ -100,7 +122,8 @@ class Gen:
     def document(self, kinds=None, wrapper=None):
         r = self.rng
         wrapper = wrapper or r.choice(["bare", "lambda", "lambda-blank", "lambda-let", "lambda-call", "let", "formals-multi",
-                                       "header-lambda-call", "let3", "lambda-let3"])
+                                       "header-lambda-call", "let3", "lambda-let3", "formals-ellipsis", "formals-ellipsis",
+                                       "let-same-twice"])
         body = self.set_body(0, 0, kinds)
         let = "let\n  owner = \"huggingface\";\n  # We love comments here\n  acc = accelerate;\nin\n"
         if wrapper == "bare":
@@ -118,6 +141,11 @@ class Gen:
         elif wrapper in ("let3", "lambda-let3"):
             let3 = ("let\n  a = 1;\nin\nlet\n  # second\n  b = a;\n\n  c = b;\nin\nlet\n  d = c;\nin\n")
             t = ("{ pkgs, ... }:\n" if wrapper == "lambda-let3" else "") + let3 + body
+        elif wrapper == "formals-ellipsis":
+            t = self.formals_multi() + r.choice(["", let, "stdenv.mkDerivation "]) + body
+        elif wrapper == "let-same-twice":
+            same = "let\n  version = \"1.0\";\n  # note\n  owner = version;\nin\n"
+            t = same + r.choice(["", "let\n  mid = owner;\nin\n"]) + same + body
         elif wrapper == "formals-multi":
             t = "{\n  lib,\n  stdenv,\n\n  # deps\n  rich,\n}:\n" + let + "buildPythonPackage rec " + body
         else:
@@ -133,6 +161,6 @@ def enumerate_pairs(seed=0):
     """every ordered pair of adjacent item kinds × 3 wrappers (deterministic values)"""
     for a in ITEM_KINDS:
         for b in ITEM_KINDS:
-            for w in ("bare", "lambda-call", "lambda-let", "let3"):
-                g = Gen(random.Random(hash((a, b, w, seed)) & 0xFFFF), max_depth=2)
+            for w in ("bare", "lambda-call", "lambda-let", "let3", "formals-ellipsis", "let-same-twice"):
+                g = Gen(random.Random(zlib.crc32(repr((a, b, w, seed)).encode())), max_depth=2)
                 yield {"pair": [a, b], "wrapper": w}, g.document(kinds=[a, b], wrapper=w)[0]
